@@ -60,4 +60,9 @@ package reflection
 //@   ensures !implements(input, system.Any) && !implements(input, fhir.Base) ==> err != nil
 //@   ensures !implements(input, system.Any) && implements(input, fhir.Base) ==> err == nil && res.namespace == "FHIR"
 //@   ensures err == nil ==> res.namespace == "FHIR" || res.namespace == "System"
+// a FHIR item (after looking into a choice wrapper) is `code` exactly when it is a code element
+// (protofields.IsCodeField), and otherwise named after its message
+//@   let it = ite(choiceOfS(input) != nil, choiceOfS(input), input)
+//@   ensures !implements(input, system.Any) && implements(input, fhir.Base) && isCodeS(it) ==> res.typeName == "code"
+//@   ensures !implements(input, system.Any) && implements(input, fhir.Base) && !isCodeS(it) && string(pbName(pbDesc(pbReflect(it)))) != "code" && lowerCamelS(string(pbName(pbDesc(pbReflect(it))))) != "code" ==> res.typeName != "code"
 //@   assigns nothing
